@@ -107,6 +107,11 @@ def R1_range_fields(run):
                 if c and c[0] in ("Eq", "Ne"):
                     n1, n2 = arg_name(c[1]), arg_name(c[2])
                     conds.add(frozenset((n1, n2)))
+                    # `(a, b) == (c, d)` is a == c && b == d
+                    t1, t2 = strip(c[1]), strip(c[2])
+                    if t1[0] == "tuple" and t2[0] == "tuple" and len(t1[1]) == len(t2[1]):
+                        for x, y in zip(t1[1], t2[1]):
+                            conds.add(frozenset((arg_name(x), arg_name(y))))
             ok = same is not None and frozenset(("new_tick_lower_index", "tick_lower_index")) in conds and frozenset(("new_tick_upper_index", "tick_upper_index")) in conds
             run.check("R1", "reset-different-range@" + short, ok, "%s does not reject re-ranging to the identical range (lower == lower && upper == upper)" % path, loc=fn.loc(), detail="same range => SameTickRangeNotAllowed")
             if anchor:
